@@ -23,6 +23,7 @@
 //!         prop  : Name=val ; val : i:ident  q:qualified::ident  s:String  n:123  k:5 (constant expression)  m:1 (= -1)
 //!                 f:1.5  b:1|b:0  x:0 (no value at all: a syntax error)  {Sub=val,Sub=val}
 //!                 z:name (`sizeof(name<uint>(1u))` = 4; instantiates the function template `name`)
+//!                 v:0 (`lds_payload.start_location`: well typed, not a constant expression)
 //! rendering : every property on a line of its own, so that a diagnostic's line identifies the property;
 //!             `path` of a property = its number in a depth-first walk of the block (1-based; 0 = the header line).
 #![allow(dead_code)]
@@ -41,6 +42,8 @@ pub enum Val {
     /// `sizeof(<name><uint>(1u))`: a constant expression with the value 4 whose type check instantiates the function
     /// template `<name>` (an item `F <name> zT`); encoded `z:<name>`
     SizeofInst(String),
+    /// `lds_payload.start_location`: a well-typed expression that is not a constant expression; encoded `v:0`
+    NonConst,
     /// nothing between `=` and `;`: the parser rejects the file
     Garbage,
     Agg(Vec<Prop>),
@@ -149,6 +152,7 @@ fn show_val(v: &Val) -> String {
         Val::Neg(n) => format!("m:{}", n),
         Val::Float(s) => format!("f:{}", s),
         Val::SizeofInst(s) => format!("z:{}", s),
+        Val::NonConst => "v:0".to_string(),
         Val::Bool(b) => format!("b:{}", if *b { 1 } else { 0 }),
         Val::Garbage => "x:0".to_string(),
         Val::Agg(ps) => format!("{{{}}}", ps.iter().map(show_prop).collect::<Vec<_>>().join(",")),
@@ -402,6 +406,7 @@ fn parse_val(s: &str) -> Option<Val> {
         "m" => Val::Neg(v.parse().ok()?),
         "f" => Val::Float(v.to_string()),
         "z" => Val::SizeofInst(v.to_string()),
+        "v" => Val::NonConst,
         "b" => Val::Bool(v == "1"),
         "x" => Val::Garbage,
         _ => return None,
@@ -444,6 +449,7 @@ fn render_scalar(v: &Val) -> String {
         Val::Neg(n) => format!("-{}", n),
         Val::Float(s) => s.clone(),
         Val::SizeofInst(s) => format!("sizeof({}<uint>(1u))", s),
+        Val::NonConst => "lds_payload.start_location".to_string(),
         Val::Bool(b) => (if *b { "true" } else { "false" }).to_string(),
         Val::Garbage => String::new(),
         Val::Agg(_) => unreachable!(),
@@ -1363,7 +1369,8 @@ pub fn gen_wide(rng: &mut Rng, o: &WideOpts) -> WProgram {
                     if let Some(p) = pick_pipe(rng) {
                         if let WItem::Pipe(pp) = &mut nodes[p].item {
                             pp.props.retain(|x| x.name != "DefaultBindGroup");
-                            let val = match rng.below(5) {
+                            let val = match rng.below(if o.no_overloads { 5 } else { 7 }) {
+                                5 | 6 => Val::NonConst,
                                 0 => Val::Neg(1),
                                 1 => Val::Float("1.0".into()),
                                 2 => Val::Num(4294967296),
@@ -1613,7 +1620,7 @@ pub fn gen_wide(rng: &mut Rng, o: &WideOpts) -> WProgram {
                             4 => (format!("BlendState{}", rng.below(8)), sub("WriteMask", Val::Num(256))),
                             5 => ("BlendState".to_string(), sub("WriteMask", Val::Konst(300))),
                             6 => ("BlendState".to_string(), sub("BlendEnabled", Val::Num(1))),
-                            7 => ("BlendState".to_string(), sub("WriteMask", Val::Agg(Vec::new()))),
+                            7 => ("BlendState".to_string(), sub("WriteMask", if rng.chance(1, 2) { Val::NonConst } else { Val::Agg(Vec::new()) })),
                             _ => ("DefaultBindGroup".to_string(), Val::Agg(vec![Prop { name: "A".into(), val: Val::Num(1) }])),
                         };
                         if let WItem::Pipe(pp) = &mut nodes[p].item {
